@@ -22,7 +22,8 @@ cell (missing error); for wrong results the shape class at the first differing H
 (left class <- right class), and the minimal set of non-default policies / overrides that is
 needed to keep the case failing (found by re-running the case with each option reset).
 """
-import copy
+import pickle
+import time
 import itertools
 import json
 import os
@@ -55,15 +56,35 @@ TMP_ROOT = "/tmp/rtc_c05"
 # --------------------------------------------------------------------------- running the real merger
 
 _LOADED = {}
+_PLAIN = {}
 
 
 def loaded(text):
-    """A fresh deep copy of the ruamel document for YAML `text` (parsed once per process)."""
-    d = _LOADED.get(text)
-    if d is None:
-        d = gen.load(text)
-        _LOADED[text] = d
-    return copy.deepcopy(d)
+    """A fresh copy of the ruamel document for YAML `text`: parsed by yamlpath's own loader once
+    per process, then cloned by a pickle round trip (keeps the ruamel types, flow style, tags)."""
+    b = _LOADED.get(text)
+    if b is None:
+        b = pickle.dumps(gen.load(text), protocol=pickle.HIGHEST_PROTOCOL)
+        _LOADED[text] = b
+    return pickle.loads(b)
+
+
+def plain(node):
+    """rtc.gen.plain, plus: ruamel's ScalarBoolean (an int subclass yamlpath wraps booleans in)
+    is the boolean it stands for."""
+    from ruamel.yaml.comments import CommentedSet, TaggedScalar
+    from ruamel.yaml.scalarbool import ScalarBoolean
+    if isinstance(node, CommentedSet):
+        return SetT(tuple(plain(m) for m in node))
+    if isinstance(node, dict):
+        return {plain(k): plain(v) for k, v in node.items()}
+    if isinstance(node, (list, tuple)):
+        return [plain(v) for v in node]
+    if isinstance(node, TaggedScalar):
+        return plain(node.value)
+    if isinstance(node, ScalarBoolean):
+        return bool(node)
+    return gen.plain(node)
 
 
 def _innermost_frame(exc):
@@ -75,6 +96,8 @@ def _innermost_frame(exc):
 
 def _exc_detail(exc):
     msg = str(exc)
+    if isinstance(exc, KeyError):
+        return ""                     # the message is just the offending key
     if isinstance(exc, AttributeError):
         m = re.search(r"has no attribute '(\w+)'", msg)
         return "attr-" + m.group(1) if m else "attr"
@@ -92,10 +115,7 @@ def path_text(p):
     """Right-hand path tuple -> YAML Path text for the [rules]/[keys] sections."""
     if not p:
         return "/"
-    out = ""
-    for seg in p:
-        out += "[%d]" % seg if isinstance(seg, int) and not isinstance(seg, bool) else "/" + str(seg)
-    return out
+    return "".join("/[%d]" % seg if isinstance(seg, int) and not isinstance(seg, bool) else "/" + str(seg) for seg in p)
 
 
 def make_args(case, ini_file=None, **more):
@@ -141,7 +161,7 @@ def run_real(case, fresh=False, extra_args=None):
     try:
         merger = Merger(log, lhs, MergerConfig(log, make_args(case, ini, **(extra_args or {})), **kw))
         merger.merge_with(rhs)
-        return ("ok", gen.plain(merger.data))
+        return ("ok", plain(merger.data))
     except MergeException as ex:
         return ("error", str(ex.user_message if hasattr(ex, "user_message") else ex))
     except (KeyboardInterrupt, MemoryError):
@@ -171,7 +191,11 @@ def spec_config(case):
 
 
 def plain_of(text):
-    return gen.plain(loaded(text))
+    t = _PLAIN.get(text)
+    if t is None:
+        t = plain(loaded(text))
+        _PLAIN[text] = t
+    return t
 
 
 def check_key_order(obs_keys, lkeys, rkeys):
@@ -202,27 +226,29 @@ def order_violation(obs_doc, trace):
             continue
         v = check_key_order(list(node.keys()), list(ev[2]), list(ev[3]))
         if v:
-            return v
+            return (v, tuple(ev[1]))
     return None
 
 
-def judge(case, real=None, lt=None, rt=None, merge=None):
+def judge(case, real=None, lt=None, rt=None, merge=None, cfg=None):
     """Compare one real run with the oracle.
 
     -> dict(status = pass | crash | unexpected-error | no-error | wrong-result | key-order | from-code,
-            real, expected, cells, liberties, from_code, order)
+            real, expected, cells, liberties, from_code, order, site)
+    `merge` replaces spec.merge.spec_merge (used by c11 for merges aimed at a path).
     """
     real = real if real is not None else run_real(case)
     lt = plain_of(case["lhs"]) if lt is None else lt
     rt = plain_of(case["rhs"]) if rt is None else rt
-    cfg = spec_config(case)
+    cfg = cfg or spec_config(case)
+    merge = merge or S.spec_merge
     outcomes = None
     tr = []
     try:
-        first = ("ok", (merge or S.spec_merge)(lt, rt, cfg, tr))
+        first = ("ok", merge(lt, rt, cfg, tr))
     except S.SpecMergeError as e:
-        first = ("error", e.cell)
-    res = {"real": real, "expected": first, "liberties": (), "order": None,
+        first = ("error", e.cell, e.path)
+    res = {"real": real, "expected": first, "liberties": (), "order": None, "site": None,
            "cells": sorted(set(ev[1:] for ev in tr if ev[0] == "cell"), key=repr),
            "from_code": sorted(set(ev[1] for ev in tr if ev[0] == "from-code"))}
 
@@ -249,7 +275,8 @@ def judge(case, real=None, lt=None, rt=None, merge=None):
             v = order_violation(real[1], hit[2])
             if v:
                 res["status"] = "key-order"
-                res["order"] = v
+                res["order"] = v[0]
+                res["site"] = v[1]
                 return res
         res["status"] = "pass"
         return res
@@ -258,17 +285,29 @@ def judge(case, real=None, lt=None, rt=None, merge=None):
         for o in outcomes:
             fc.update(ev[1] for ev in o[2] if ev[0] == "from-code")
         res["from_code"] = sorted(fc)
-        res["alternatives"] = [o[1] for o in outcomes[1:]]
+    all_out = [o[1] for o in outcomes] if outcomes is not None else [first]
     if real[0] == "crash":
         res["status"] = "crash"
     elif res["from_code"]:
         res["status"] = "from-code"
     elif real[0] == "error":
         res["status"] = "unexpected-error"
-    elif first[0] == "error" and (outcomes is None or all(o[1][0] == "error" for o in outcomes)):
+        oks = [o for o in all_out if o[0] == "ok"]
+        res["expected"] = oks[0] if oks else first
+    elif all(o[0] == "error" for o in all_out):
         res["status"] = "no-error"
+        res["expected"] = all_out[-1]        # the reading that uses the most liberties
+        res["site"] = all_out[-1][2]
     else:
+        # the admitted document that agrees with the real one down to the deepest Hash path
         res["status"] = "wrong-result"
+        best = None
+        for o in all_out:
+            if o[0] == "ok":
+                site = first_diff_site(real[1], o[1])
+                if best is None or len(site) > len(best[0]):
+                    best = (site, o)
+        res["site"], res["expected"] = best
     return res
 
 
@@ -294,14 +333,38 @@ def shape_class(v):
     return "mixed-seq"
 
 
+_COARSE_L = {"empty-hash": "hash", "aoh": "seq", "array": "seq", "mixed-seq": "seq", "empty-seq": "seq"}
+_COARSE_R = {"empty-hash": "hash", "null": "scalar"}
+
+
+def where_class(lt, rt, site):
+    """Shape class of the node pair at `site` (coarse on purpose: one key per root cause)."""
+    site = _keys_only(site, rt)
+    lc, rc = _class_at(lt, site), _class_at(rt, site)
+    rc = _COARSE_R.get(rc, rc)
+    lc = "any" if rc == "scalar" else _COARSE_L.get(lc, lc)
+    return "%s<-%s%s" % (lc, rc, "@root" if not site else "")
+
+
 def first_diff_site(a, b, path=()):
     """Longest Hash-key-only path at which the two documents still differ."""
-    if isinstance(a, dict) and isinstance(b, dict) and not isinstance(a, SetT):
+    if isinstance(a, dict) and isinstance(b, dict):
         if set(a.keys()) == set(b.keys()):
             for k in a:
                 if not S.veq(a[k], b[k]):
                     return first_diff_site(a[k], b[k], path + (k,))
     return path
+
+
+def _keys_only(path, doc):
+    """Longest prefix of `path` that walks Hashes of `doc` only."""
+    out = []
+    for seg in path or ():
+        if not isinstance(doc, dict) or seg not in doc:
+            break
+        doc = doc[seg]
+        out.append(seg)
+    return tuple(out)
 
 
 def _class_at(doc, path):
@@ -311,6 +374,15 @@ def _class_at(doc, path):
         else:
             return "absent"
     return shape_class(doc)
+
+
+def project(doc, path):
+    """Drop every Hash entry beside `path` (keeps the node at `path` whole)."""
+    if not path or not isinstance(doc, dict):
+        return doc
+    if path[0] not in doc:
+        return {}
+    return {path[0]: project(doc[path[0]], path[1:])}
 
 
 def _subst_true(v):
@@ -335,18 +407,51 @@ def _contains_true(v):
     return False
 
 
+_CLASSIFIED = {}
+
+
+def _where_of(res, lt, rt):
+    st, real, exp = res["status"], res["real"], res["expected"]
+    if st == "crash":
+        return "%s(%s)@%s" % (real[1]["type"], real[1]["detail"], real[1]["at"])
+    if st == "unexpected-error":
+        return slug(real[1])
+    if st == "no-error":
+        return exp[1]
+    if st == "key-order":
+        return res["order"]
+    return where_class(lt, rt, res["site"])
+
+
 def classify(case, res, judge_fn=None, prop=PROP):
-    """Stable witness key + description for a failing case (res = judge(case))."""
+    """Stable witness key + description for a failing case (res = judge(case)).
+
+    -> (key, what, minimised case, judge(minimised case))
+    """
     judge_fn = judge_fn or judge
     status = res["status"]
+    lt, rt = plain_of(case["lhs"]), plain_of(case["rhs"])
+    pre = (prop, status, _where_of(res, lt, rt), json.dumps(case["args"], sort_keys=True),
+           json.dumps([case.get("rules"), case.get("keys"), case.get("ini"), case.get("mergeat")], sort_keys=True),
+           _contains_true(lt) or _contains_true(rt))
+    cached = _CLASSIFIED.get(pre)
+    if cached is not None:
+        return cached[0], cached[1], case, res
 
     def still(c):
         return judge_fn(c)["status"] == status
 
-    # 1. which non-default policies / overrides are needed to keep the failure?
     c = dict(case, args=dict(case["args"]))
+    r = res
+    # 0. cut both documents down to the Hash path where the failure sits
+    site = _keys_only(res.get("site"), rt)
+    if site and not case.get("mergeat"):
+        c2 = dict(c, lhs=gen.to_yaml(project(lt, site)), rhs=gen.to_yaml(project(rt, site)))
+        r2 = judge_fn(c2)
+        if r2["status"] == status and _where_of(r2, plain_of(c2["lhs"]), plain_of(c2["rhs"])) == pre[2]:
+            c, r = c2, r2
+    # 1. which non-default policies / overrides are needed to keep the failure?
     if c.get("ini"):
-        # fold the INI defaults into the arguments when that keeps the failure
         c2 = dict(c, ini=None, args={o: c["args"].get(o) or c["ini"].get(o) for o in OPTS})
         if still(c2):
             c = c2
@@ -365,50 +470,62 @@ def classify(case, res, judge_fn=None, prop=PROP):
     if c.get("ini"):
         needed.append("ini-defaults")
     lt, rt = plain_of(c["lhs"]), plain_of(c["rhs"])
+    named = []
     for sect in ("rules", "keys"):
         for k, v in sorted((c.get(sect) or {}).items()):
             try:
                 cls = shape_class(S.get_at(rt, parse_path(k)))
             except (KeyError, IndexError, TypeError):
                 cls = "absent"
+            named.append(parse_path(k))
             needed.append("%s:%s%s=%s" % (sect[:-1], cls, "@root" if k == "/" else "", v if sect == "rules" else "key"))
     pol = ",".join(needed) or "default-policies"
     r = judge_fn(c)
     real, exp = r["real"], r["expected"]
+    where = _where_of(r, lt, rt)
+    special = None
+    if status in ("wrong-result", "no-error"):
+        site = tuple(r.get("site") or ())
+        rc = _class_at(rt, _keys_only(site, rt))
+        rc = _COARSE_R.get(rc, rc)
+        if named and not any(site[:len(n)] == tuple(n) or tuple(n[:len(site)]) == site for n in named):
+            # the failure needs the override, yet sits at a node the override does not name
+            special = ("rule-or-key-takes-effect-at-a-path-it-does-not-name/" + rc,
+                       "a [rules]/[keys] entry changes the merge of a node at ANOTHER path (%s)" % path_text(site))
+        elif any(n.startswith("aoh=") for n in needed) and site and rc in ("scalar", "array", "empty-seq"):
+            # the failure needs a non-default --aoh, yet the right-hand value here is no Array-of-Hashes
+            special = ("aoh-policy-applied-to-non-aoh-value/" + rc + ("/no-merge-error" if status == "no-error" else ""),
+                       "the --aoh policy decides the merge of a right-hand %s under a Hash key" % rc)
 
     # 2. does it only fail because Python's True == 1 ?
-    conflated = False
-    if status in ("wrong-result", "no-error", "unexpected-error") and (_contains_true(lt) or _contains_true(rt)):
+    tag = ""
+    if status in ("wrong-result", "no-error", "unexpected-error") and pre[5]:
         c3 = dict(c, lhs=gen.to_yaml(_subst_true(lt)), rhs=gen.to_yaml(_subst_true(rt)))
-        conflated = judge_fn(c3)["status"] == "pass"
+        if judge_fn(c3)["status"] == "pass":
+            tag = "true-equals-1/"
 
-    tag = "true-equals-1/" if conflated else ""
-    if status == "crash":
-        key = "%s/crash/%s(%s)@%s" % (prop, real[1]["type"], real[1]["detail"], real[1]["at"])
+    if special:
+        key = "%s/%s%s" % (prop, tag, special[0])
+        what = special[1] + "; " + pol
+    elif status == "crash":
+        key = "%s/crash/%s" % (prop, where)
         what = "%s escapes merge_with instead of a MergeException (%s line %s): %s" % (
             real[1]["type"], real[1]["at"], real[1]["line"], real[1]["msg"])
     elif status == "unexpected-error":
-        key = "%s/merge-error-where-result-defined/%s%s/%s" % (prop, tag, slug(real[1]), pol)
+        key = "%s/merge-error-where-result-defined/%s%s/%s" % (prop, tag, where, pol)
         what = "MergeException although the documented policies define the merged document"
     elif status == "no-error":
-        key = "%s/no-merge-error/%s%s/%s" % (prop, tag, exp[1], pol)
+        key = "%s/no-merge-error/%s%s/%s" % (prop, tag, where, pol)
         what = "a structurally impossible merge (%s) produced a document instead of a merge error" % exp[1]
     elif status == "key-order":
-        key = "%s/key-order/%s" % (prop, r["order"] or res["order"])
-        what = "deep Hash merge: " + (r["order"] or res["order"])
+        key = "%s/key-order/%s" % (prop, where)
+        what = "deep Hash merge: " + str(where)
     else:
-        site = first_diff_site(real[1], exp[1]) if exp[0] == "ok" else ()
-        where = "%s<-%s%s" % (_class_at(lt, site), _class_at(rt, site), "@root" if not site else "")
-        named = [parse_path(k) for sect in ("rules", "keys") for k in (c.get(sect) or {})]
-        if named:
-            # is the differing node the one the override names (or below it), or another one?
-            on = any(tuple(site[:len(n)]) == tuple(x for x in n if not isinstance(x, int)) or
-                     tuple(site) == tuple(n[:len(site)]) for n in named)
-            where += "(the-overridden-node)" if on else "(not-the-overridden-node)"
         key = "%s/wrong-result/%s%s/%s" % (prop, tag, where, pol)
         what = "merged document differs from every documented reading at a node of shape %s under %s" % (where, pol)
-    if conflated:
+    if tag:
         what += " (passes once `true` is replaced by a string: Python's True == 1 conflation)"
+    _CLASSIFIED[pre] = (key, what)
     return key, what, c, r
 
 
@@ -547,7 +664,7 @@ def _sig(case, res, lt, rt):
 
 
 def eval_case(col, case, lt, rt, judge_fn=judge, classify_fn=classify, prop=PROP):
-    res = judge_fn(case)
+    res = judge_fn(case, lt=lt, rt=rt)
     st = res["status"]
     nontrivial = (res["real"][0] != "ok" or not S.veq(res["real"][1], lt)) or st != "pass"
     sample = None
@@ -586,11 +703,12 @@ def work_pairs(chunk, tier, seed, lname, rname, polmode, k):
     """chunk: list of (li, ri) into pools lname x rname."""
     p, texts = pools(tier)
     col = Collector()
+    t0 = time.process_time()
     for li, ri in chunk:
         lt, rt = p[lname][li], p[rname][ri]
         for pol in _policies_for(polmode, li, ri, seed, k):
             eval_case(col, mk_case(texts[lname][li], texts[rname][ri], pol), lt, rt)
-    return col.result(internal=True)
+    return col.result(internal=True, cpu_s=time.process_time() - t0)
 
 
 CONTRARY = {"hashes": "left", "arrays": "left", "aoh": "left", "sets": "left"}
@@ -600,18 +718,20 @@ CONTRARY2 = {"hashes": "right", "arrays": "unique", "aoh": "deep", "sets": "righ
 def work_overrides(chunk, tier, seed, lname, rname):
     p, texts = pools(tier)
     col = Collector()
+    t0 = time.process_time()
     for li, ri in chunk:
         lt, rt = p[lname][li], p[rname][ri]
         for ov in override_variants(lt, rt):
             for pol in ({}, CONTRARY, CONTRARY2):
                 eval_case(col, mk_case(texts[lname][li], texts[rname][ri], pol, ov.get("rules"), ov.get("keys")), lt, rt)
-    return col.result(internal=True)
+    return col.result(internal=True, cpu_s=time.process_time() - t0)
 
 
 def work_ini(chunk, tier, seed, lname, rname):
     """[defaults] of an INI file: used when the command line is silent, overridden by it."""
     p, texts = pools(tier)
     col = Collector()
+    t0 = time.process_time()
     for li, ri in chunk:
         lt, rt = p[lname][li], p[rname][ri]
         rng = random.Random((seed * 31 + li * 104729 + ri) & 0xFFFFFFFF)
@@ -620,7 +740,7 @@ def work_ini(chunk, tier, seed, lname, rname):
         part = {o: cli[o] for o in OPTS if rng.random() < 0.5}
         for args in ({}, part):
             eval_case(col, mk_case(texts[lname][li], texts[rname][ri], args, ini=dict(ini)), lt, rt)
-    return col.result(internal=True)
+    return col.result(internal=True, cpu_s=time.process_time() - t0)
 
 
 # --------------------------------------------------------------------------- driver
@@ -656,7 +776,12 @@ def run(tier="quick", seed=0, jobs=None):
     n3, n4 = len(p["d3"]), len(p["d4"])
     ncur = len(p["cur"])
     stages = []
-    if tier == "quick":
+    if tier == "smoke":         # a minute of CPU: used for mutation-testing the harness itself
+        stages.append(("d3xd3 sampled pairs x 12 axis policies", work_pairs, _sample_pairs(n3, n3, 3000, rng), ("d3", "d3", "axis", 0)))
+        ov_pairs = _sample_pairs(n4, n4, 600, rng)
+        ini_pairs = _sample_pairs(n3, n3, 300, rng)
+        exhaustive = False
+    elif tier == "quick":
         stages.append(("d3xd3 x 12 axis policies (exhaustive)", work_pairs, _pairs(n3, n3), ("d3", "d3", "axis", 0)))
         stages.append(("d3xd3 x 6 sampled of 180", work_pairs, _pairs(n3, n3), ("d3", "d3", "sample", 6)))
         stages.append(("d4xd4 sampled pairs x 4 sampled policies", work_pairs,
@@ -674,23 +799,28 @@ def run(tier="quick", seed=0, jobs=None):
         exhaustive = True
     stages.append(("key-permuted flat maps x all 180", work_pairs,
                    _pairs(len(p["perm_l"]), len(p["perm_r"])), ("perm_l", "perm_r", "all", 0)))
-    stages.append(("curated x curated x all 180", work_pairs, _pairs(ncur, ncur), ("cur", "cur", "all", 0)))
+    stages.append(("curated x curated x %s" % ("12 axis policies" if tier == "smoke" else "all 180"), work_pairs,
+                   _pairs(ncur, ncur), ("cur", "cur", "axis" if tier == "smoke" else "all", 0)))
     stage_info = []
     try:
         for name, fn, items, extra in stages:
             before = col.evaluations
+            cpu = 0.0
             for r in pmap_chunks(fn, items, jobs=jobs, chunk=max(20, len(items) // 160 or 1),
                                  extra=(tier, seed) + tuple(extra)):
                 col.merge(r)
-            stage_info.append({"stage": name, "pairs": len(items), "cases": col.evaluations - before})
+                cpu += r["cpu_s"]
+            stage_info.append({"stage": name, "pairs": len(items), "cases": col.evaluations - before, "cpu_s": round(cpu, 1)})
         for name, fn, items, extra in (
                 ("rules/keys overrides: d4xd4 pairs", work_overrides, ov_pairs, ("d4", "d4")),
                 ("rules/keys overrides: curated x curated", work_overrides, _pairs(ncur, ncur), ("cur", "cur")),
                 ("INI [defaults] vs command line: d3xd3", work_ini, ini_pairs, ("d3", "d3"))):
             before = col.evaluations
+            cpu = 0.0
             for r in pmap_chunks(fn, items, jobs=jobs, chunk=max(20, len(items) // 160 or 1), extra=(tier, seed) + extra):
                 col.merge(r)
-            stage_info.append({"stage": name, "pairs": len(items), "cases": col.evaluations - before})
+                cpu += r["cpu_s"]
+            stage_info.append({"stage": name, "pairs": len(items), "cases": col.evaluations - before, "cpu_s": round(cpu, 1)})
     finally:
         shutil.rmtree(TMP_ROOT, ignore_errors=True)
     bounds = {
@@ -710,7 +840,9 @@ def run(tier="quick", seed=0, jobs=None):
             "documented reading is a merge error; otherwise plain(merger.data) equals a documented reading "
             "(Hash key order disregarded, true != 1) and every deep-merged Hash keeps the left keys' relative order with "
             "new right keys before the right key that follows them")
-    return col.result(rule=rule, exhaustive=exhaustive, bounds=bounds)
+    cpu = round(sum(st["cpu_s"] for st in stage_info), 1)
+    return col.result(rule=rule, exhaustive=exhaustive, bounds=bounds, cpu_s=cpu,
+                      note="cpu_s is the summed worker CPU time; on 16 idle cores the wall time is about cpu_s/16")
 
 
 def replay(inp):
